@@ -1198,9 +1198,10 @@ static int rtr_sync_receive_and_store_pdus(struct rtr_socket *rtr_socket)
 					// undo all record updates, except the last which produced the error
 					RTR_DBG("Error during data synchronisation, recovering Serial Nr. %u state",
 						rtr_socket->serial_number);
-					for (unsigned int j = 0; j < i && retval == PFX_SUCCESS; j++)
+					// undo in reverse order, a later PDU may depend on an earlier one
+					for (unsigned int j = i; j > 0 && retval == PFX_SUCCESS; j--)
 						retval = rtr_undo_update_pfx_table(rtr_socket, pfx_update_table,
-										   &(ipv4_pdus[j]));
+										   &(ipv4_pdus[j - 1]));
 					if (retval == RTR_ERROR) {
 						RTR_DBG1(
 							"Couldn't undo all update operations from failed data synchronisation: Purging all records");
@@ -1219,12 +1220,13 @@ static int rtr_sync_receive_and_store_pdus(struct rtr_socket *rtr_socket)
 					// undo all record updates if error occurred
 					RTR_DBG("Error during data synchronisation, recovering Serial Nr. %u state",
 						rtr_socket->serial_number);
-					for (unsigned int j = 0; j < ipv4_pdus_nindex && retval == PFX_SUCCESS; j++)
+					// undo in reverse order, a later PDU may depend on an earlier one
+					for (unsigned int j = i; j > 0 && retval == PFX_SUCCESS; j--)
 						retval = rtr_undo_update_pfx_table(rtr_socket, pfx_update_table,
-										   &(ipv4_pdus[j]));
-					for (unsigned int j = 0; j < i && retval == PFX_SUCCESS; j++)
+										   &(ipv6_pdus[j - 1]));
+					for (unsigned int j = ipv4_pdus_nindex; j > 0 && retval == PFX_SUCCESS; j--)
 						retval = rtr_undo_update_pfx_table(rtr_socket, pfx_update_table,
-										   &(ipv6_pdus[j]));
+										   &(ipv4_pdus[j - 1]));
 					if (retval == PFX_ERROR) {
 						RTR_DBG1(
 							"Couldn't undo all update operations from failed data synchronisation: Purging all records");
@@ -1244,17 +1246,18 @@ static int rtr_sync_receive_and_store_pdus(struct rtr_socket *rtr_socket)
 				    SPKI_ERROR) {
 					RTR_DBG("Error during router key data synchronisation, recovering Serial Nr. %u state",
 						rtr_socket->serial_number);
-					for (unsigned int j = 0; j < ipv4_pdus_nindex && retval == PFX_SUCCESS; j++)
-						retval = rtr_undo_update_pfx_table(rtr_socket, pfx_update_table,
-										   &(ipv4_pdus[j]));
-					for (unsigned int j = 0; j < ipv6_pdus_nindex && retval == PFX_SUCCESS; j++)
-						retval = rtr_undo_update_pfx_table(rtr_socket, pfx_update_table,
-										   &(ipv6_pdus[j]));
-					for (unsigned int j = 0;
+					// undo in reverse order, a later PDU may depend on an earlier one
+					for (unsigned int j = i;
 					// cppcheck-suppress duplicateExpression
-					     j < i && (retval == PFX_SUCCESS || retval == SPKI_SUCCESS); j++)
+					     j > 0 && (retval == PFX_SUCCESS || retval == SPKI_SUCCESS); j--)
 						retval = rtr_undo_update_spki_table(rtr_socket, spki_update_table,
-										    &(router_key_pdus[j]));
+										    &(router_key_pdus[j - 1]));
+					for (unsigned int j = ipv6_pdus_nindex; j > 0 && retval == PFX_SUCCESS; j--)
+						retval = rtr_undo_update_pfx_table(rtr_socket, pfx_update_table,
+										   &(ipv6_pdus[j - 1]));
+					for (unsigned int j = ipv4_pdus_nindex; j > 0 && retval == PFX_SUCCESS; j--)
+						retval = rtr_undo_update_pfx_table(rtr_socket, pfx_update_table,
+										   &(ipv4_pdus[j - 1]));
 					// cppcheck-suppress duplicateExpression
 					if (retval == RTR_ERROR || retval == SPKI_ERROR) {
 						RTR_DBG1(
